@@ -17,6 +17,7 @@ import (
 	"strconv"
 	"strings"
 	"sync"
+	"sync/atomic"
 	"syscall"
 	"time"
 
@@ -41,6 +42,7 @@ type Job struct {
 type JobResult struct {
 	Res   []wrun.CaseResult
 	Ms    []int64 // wall time per case
+	CpuMs int64   // CPU time (user+system) the worker process spent on this job, compile included
 	Err   string  // go2wa / compile error
 	WaSrc string
 }
@@ -66,9 +68,23 @@ func limitMemory() {
 	_ = syscall.Setrlimit(syscall.RLIMIT_DATA, &syscall.Rlimit{Cur: lim, Max: lim})
 }
 
+func cpuMs() int64 {
+	var ru syscall.Rusage
+	if syscall.Getrusage(syscall.RUSAGE_SELF, &ru) != nil {
+		return 0
+	}
+	return (ru.Utime.Sec+ru.Stime.Sec)*1000 + int64(ru.Utime.Usec+ru.Stime.Usec)/1000
+}
+
 // HandleJob is the worker entry point (mc.WorkerMain(hrun.HandleJob)).
 func HandleJob(raw json.RawMessage) interface{} {
+	res := handleJob(raw)
+	return res
+}
+
+func handleJob(raw json.RawMessage) (out JobResult) {
 	limitOnce.Do(limitMemory)
+	cpu0 := cpuMs()
 	var j Job
 	if err := json.Unmarshal(raw, &j); err != nil {
 		return JobResult{Err: err.Error()}
@@ -92,7 +108,8 @@ func HandleJob(raw json.RawMessage) interface{} {
 		instFresh = true
 	}
 	p := cachedProg
-	out := JobResult{Res: make([]wrun.CaseResult, j.N), Ms: make([]int64, j.N)}
+	out = JobResult{Res: make([]wrun.CaseResult, j.N), Ms: make([]int64, j.N)}
+	defer func() { out.CpuMs = cpuMs() - cpu0 }()
 	for i := range out.Res {
 		out.Res[i].Status = "skipped"
 	}
@@ -153,12 +170,15 @@ type Program struct {
 	GoRes []wrun.CaseResult
 	GoErr error
 	Wa    JobResult
+	WaCpu int64  // ms of worker CPU over all jobs of this program
 	WaErr string // go2wa/compile error, or the worker crashed / exceeded the safety net 4 times
 }
 
 var (
 	seqMu sync.Mutex
 	seq   int64
+	// TotalWaCpuMs is the worker CPU time of all jobs run so far (for cost reporting).
+	TotalWaCpuMs atomic.Int64
 )
 
 // Run executes every program on Go and on Wa. stopFirst: the Wa side of a program stops at its
@@ -288,6 +308,8 @@ func Run(r *mc.Run, pool *mc.Pool, ps []*Program, stopFirst, obeyDeadline bool) 
 				p.WaErr = "bad worker output: " + err.Error()
 				return
 			}
+			p.WaCpu += jr.CpuMs
+			TotalWaCpuMs.Add(jr.CpuMs)
 			if jr.Err != "" {
 				p.WaErr = jr.Err
 				p.Wa.WaSrc = jr.WaSrc
